@@ -104,6 +104,12 @@ func (k Keeper) UpdateNSTBalance(
 						return true, err
 					}
 					slashShare := delegationAmount.UndelegatableShare.Mul(slashProportion)
+					if !slashShare.IsPositive() {
+						// nothing to take from this delegation (e.g. a fully undelegated position
+						// whose zero-share entry is still stored); removing a zero share is an
+						// error that would abort the update half way.
+						return false, nil
+					}
 					actualSlashAmount, err := k.RemoveShare(ctx, false, opAccAddr, stakerID, assetID, slashShare)
 					if err != nil {
 						return true, err
